@@ -3,7 +3,7 @@ from pyvc.verify import Post, Case, Equiv, NativeFacts
 from contracts import common
 
 PROPERTY = 'C17'
-REF_MODULES = ['ref_stream']
+REF_MODULES = ['ref_stream', 'ref_extra', 'ref_core']
 
 
 def config(cfg):
@@ -47,6 +47,9 @@ def contracts():
     cs.append(Equiv('streaming.First.glomit', 'ref_stream.first_glomit_ref', args={'self': 'inst:streaming.First', 'target': 'ref', 'scope': 'chainmap'}))
     from contracts import X_ctor
     cs += common.shared(X_ctor, ['streaming.Iter.__init__'])
+    cs += common.shared(X_ctor, ['core.Pipe.__init__', 'core.Spec.__init__'])
+    from contracts import extra as _ex17
+    cs += common.shared(_ex17, ['core.Call.__init__'])
     return cs
 
 
